@@ -413,7 +413,28 @@ def check_threads(case, res):
     if digest_domain(domain) != before:
         return   # a sequential purity defect: the history stream reports it
     prefix = os.path.join(os.environ.get("PV_REPO", "/repo"), "pddl_plus_parser")
-    results, steps = sched.TwoThreadScheduler(case["switch"], prefix).run(bodies[0], bodies[1])
+    # schedules: the drawn list of switch points, plus single preemptions of the first thread placed at the drawn
+    # fractions of its own length (measured in line events): the other thread then runs to completion in between
+    schedules = [list(case["switch"])]
+    if case.get("fracs"):
+        _, len0 = sched.TwoThreadScheduler([], prefix).run(bodies[0], lambda: None)
+        schedules += [[max(1, int(f * len0))] for f in case["fracs"]]
+    steps = 0
+    for switch in schedules:
+        if _run_schedule(case, res, spec, bodies, alone, switch, prefix) is False:
+            return
+        steps = max(steps, _run_schedule.last_steps)
+    if digest_domain(domain) != before:
+        res.bad("C07/threads/domain-changed", {"threads": case["threads"], "switch": case["switch"]})
+    res.nontrivial = True
+    res.classes = ["threads:" + "+".join(sorted(t["kind"] for t in case["threads"]))]
+    res.evals = 2 * len(schedules)
+
+
+def _run_schedule(case, res, spec, bodies, alone, switch, prefix):
+    from pv import sched
+    results, steps = sched.TwoThreadScheduler(switch, prefix).run(bodies[0], bodies[1])
+    _run_schedule.last_steps = steps
     for i, (r, base) in enumerate(zip(results, alone)):
         exp = ("ok", base[1]) if base[0] else ("exc", None)
         same = r[0] == exp[0] and (r[0] != "ok" or r[1] == exp[1])
@@ -425,14 +446,10 @@ def check_threads(case, res):
                 same = False
         if not same:
             res.bad(f"C07/threads/result-differs-from-sequential/{case['threads'][i]['kind']}",
-                    {"threads": case["threads"], "switch": case["switch"], "thread": i, "alone": repr(base[1])[:500], "interleaved": repr(r[1])[:500],
+                    {"threads": case["threads"], "switch": switch, "thread": i, "alone": repr(base[1])[:500], "interleaved": repr(r[1])[:500],
                      "domain": sexpr.flat(pddl.domain_tree(spec["dom"]))})
-            return
-    if digest_domain(domain) != before:
-        res.bad("C07/threads/domain-changed", {"threads": case["threads"], "switch": case["switch"]})
-    res.nontrivial = any(sp <= steps for sp in case["switch"])
-    res.classes = ["threads:" + "+".join(sorted(t["kind"] for t in case["threads"]))]
-    res.evals = 2
+            return False
+    return True
 
 
 def conflicting_ref(spec, a, args, st):
@@ -514,7 +531,8 @@ def gen_threads(ch, tier):
     threads = [{"kind": ch.choice(kinds), "c": ch.int(0, 7), "s": ch.int(0, 3)} for _ in range(2)]
     n = ch.int(1, 4)
     switch = sorted({ch.int(1, 400) for _ in range(n)})
-    return {"specs": [spec], "threads": threads, "switch": switch}
+    fracs = [round((k + ch.int(0, 99) / 100.0) / 6.0, 4) for k in range(6)]      # one preemption per sixth of the first thread
+    return {"specs": [spec], "threads": threads, "switch": switch, "fracs": fracs}
 
 
 def plan(tier):
